@@ -10,6 +10,7 @@ import Rip.Driver.C13
 import Rip.Driver.C14
 import Rip.Driver.C17
 import Rip.Driver.C18
+import Rip.Driver.C16
 
 /-- One case per line: `<property> <case tokens…>` → one observation line. -/
 def dispatch (line : String) : String :=
@@ -36,6 +37,9 @@ def dispatch (line : String) : String :=
     | "c14" => Rip.Driver.C14.handle rest
     | "c15" => Rip.Driver.C15.handle rest
     | "c15d" => Rip.Driver.C15.handleDec rest
+    | "c16c" => Rip.Driver.C16.handleC rest
+    | "c16a" => Rip.Driver.C16.handleA rest
+    | "c16l" => Rip.Driver.C16.handleL rest
     | "c15u" => Rip.Driver.C15.handleUtf8 rest
     | _ => "bad-op"
 
